@@ -50,7 +50,7 @@ def required_cells(tier):
 
 
 def cases(tier, seed):
-    n = 96 if tier == "quick" else 900
+    n = 144 if tier == "quick" else 1200
     out = [{"kind": "phys", "seed": seed, "idx": i, "tier": tier}
            for i in range(n)]
     if tier == "thorough":
